@@ -5,11 +5,12 @@ import iongen
 import binlib
 
 import c12text
-THEOREMS = ["C12_binary_no_panic", "C12_binary_sticky", "C12_binary_error_recorded", "C12_binary_first_failure", "C12_binary_lst_no_panic", "C12_binary_lst_total", "C12_binary_finish_clean", "C12_binary_finish_clean_lst"] + c12text.THEOREMS
+THEOREMS = ["C12_binary_no_panic", "C12_binary_sticky", "C12_binary_error_recorded", "C12_binary_first_failure", "C12_binary_lst_no_panic", "C12_binary_lst_total", "C12_binary_finish_clean", "C12_binary_finish_clean_lst", "C12_binary_denote", "C12_binary_denote_show", "C12_binary_denote_writer", "C12_binary_batches_decode", "C12_binary_final_finish_enough", "C12_binary_lockstep", "C12_ex_finish_inside", "C12_ex_two_batches"] + c12text.THEOREMS
+EXTRA_MODULES = ["C12bin3"]
 LEVEL = "proof"
 ASSUMPTIONS = ["Go == model only on the call sequences sampled (exhaustive for short sequences over the reduced alphabet)",
                "binary no-panic theorem is for NewBinaryWriter without shared tables; the fixed-table writer is covered by correspondence",
-               "'final Finish nil => bytes denote the successful calls' is decided by the oracle (independent decoders) on the real code, not by a theorem"] + c12text.ASSUMPTIONS
+               "'final Finish nil => bytes denote the successful calls' is the theorem C12_binary_denote for the growing-table binary Writer with a never-failing sink and tokens with text; for the fixed-table writer, failing sinks and the text Writer it is decided by the oracle (independent decoders) on the real code"] + c12text.ASSUMPTIONS
 TRUSTED_EXTRA = c12text.TRUSTED_EXTRA
 EXPLANATION = ("Coq theorems for every call sequence: no call panics (binary growing-table Writer and text Writer), a recorded "
                "error makes every later call fail unchanged, a failing call other than Finish records the error (binary and "
